@@ -407,4 +407,94 @@ theorem tree_get_compartments_eq (T : DictSWC) (pidc idc : List Int) (hp : Py.Di
   have e : ∀ a : Nat, ((a : Int) + 1).toNat = a + 1 := by intro a; omega
   simp [e]
 
+
+/-! ## `detach()` and `copy()` -/
+
+theorem dictswc_init_eq (D : Py.Dict String (List Int)) (nm : SWCNames) : dictswc_init default D nm = some (⟨D, nm⟩, ()) := by
+  simp [dictswc_init, dictswc_init.body, Py.seq, Py.finish]
+
+theorem path_init_eq (T : DictSWC) (idx : List Int) : path_init default T idx = some (⟨T, idx, T.names⟩, ()) := by
+  simp [path_init, path_init.body, Py.seq, Py.finish]
+
+theorem path_keys_eq (P : Path) : path_keys P = some (Py.Dict.keys P.attach.ndata) := by
+  simp [path_keys, path_keys.body, swc_keys, swc_keys.body, Py.finish, Py.bind]
+
+/-- `0, 1, …, n-1` -/
+def arangeL (n : Nat) : List Int := (List.range n).map fun (k : Nat) => (k : Int)
+/-- `-1, 0, …, n-2` -/
+def pidL (n : Nat) : List Int := (List.range n).map fun (k : Nat) => (k : Int) - 1
+
+theorem detach_loop (P : Path) : ∀ (ks : List String) (v : path_detach.V), v.self = P → (∀ k ∈ ks, (path_get_ndata P k).isSome) →
+    ∃ v', Py.forEach path_detach.for1 ks v = .next v' ∧ v'.self = P ∧
+      ∀ k', Py.Dict.get? v'.c0_ k' = if k' ∈ ks then path_get_ndata P k' else Py.Dict.get? v.c0_ k' := by
+  intro ks
+  induction ks with
+  | nil => intro v h _; exact ⟨v, rfl, h, by simp⟩
+  | cons k ks ih =>
+    intro v h hall
+    subst h
+    obtain ⟨g, hg⟩ := Option.isSome_iff_exists.1 (hall k List.mem_cons_self)
+    obtain ⟨v', h1, h2, h3⟩ := ih ⟨v.self, v.attact, k, Py.Dict.set v.c0_ k g⟩ rfl (fun j hj => hall j (List.mem_cons_of_mem _ hj))
+    refine ⟨v', ?_, h2, ?_⟩
+    · simp only [Py.forEach, path_detach.for1, hg, Py.bind]
+      exact h1
+    · intro k'
+      rw [h3 k']
+      by_cases m : k' ∈ ks
+      · simp [m]
+      · by_cases e : k' = k
+        · subst e; simp [m, Py.Dict.get?_set, hg]
+        · simp [m, e, Py.Dict.get?_set]
+
+/-- **`Path.detach()`**: a new Path over a new DictSWC whose columns are the path's columns (every key of the owner, gathered by `idx`),
+with `id` replaced by `0 .. n-1` and `pid` by `-1 .. n-2`, indexed by `0 .. n-1`.  (`hall`: every column of the owner can be gathered, e.g.
+all columns as long as the id column and `idx` in range.) -/
+theorem path_detach_eq (P : Path) (g : List Int) (h : path_get_ndata P P.names.id = some g)
+    (hall : ∀ k ∈ Py.Dict.keys P.attach.ndata, (path_get_ndata P k).isSome) :
+    ∃ D, path_detach P = some ⟨⟨D, P.names⟩, arangeL g.length, P.names⟩ ∧
+      ∀ k', Py.Dict.get? D k' =
+        if k' = P.names.pid then some (pidL g.length) else if k' = P.names.id then some (arangeL g.length)
+        else if k' ∈ Py.Dict.keys P.attach.ndata then path_get_ndata P k' else none := by
+  obtain ⟨v', e1, e2, e3⟩ := detach_loop P (Py.Dict.keys P.attach.ndata)
+    ⟨P, (default : path_detach.V).attact, (default : path_detach.V).k, []⟩ rfl hall
+  refine ⟨Py.Dict.set (Py.Dict.set v'.c0_ P.names.id (arangeL g.length)) P.names.pid (pidL g.length), ?_, ?_⟩
+  · simp [path_detach, path_detach.body, Py.seq, Py.bind, Py.bindS, path_keys_eq, e1, dictswc_init_eq, e2, path_id_eq P g h,
+      path_pid_eq P g h, path_init_eq, Py.finish, arangeL, pidL]
+  · intro k'
+    simp only [Py.Dict.get?_set, e3 k']
+    by_cases a : k' = P.names.pid
+    · simp [a]
+    · by_cases b : k' = P.names.id <;> simp [a, b]
+
+theorem take_arange (l : List Int) : Py.take l (arangeL l.length) = some l := by
+  rw [take_gather l (arangeL l.length) (by intro j hj; simp [arangeL] at hj; obtain ⟨a, ha, rfl⟩ := hj; omega)]
+  congr 1
+  apply List.ext_getElem
+  · simp [gather, arangeL]
+  · intro k h1 h2
+    simp [gather, arangeL] at h1 ⊢
+    simp [List.getD, h1]
+
+theorem path_get_ndata_length (P : Path) (key : String) (gk : List Int) (h : path_get_ndata P key = some gk) : gk.length = P.idx.length := by
+  obtain ⟨T, idx, nm⟩ := P
+  rw [path_get_ndata_eq] at h
+  cases hc : Py.Dict.get? T.ndata key with
+  | none => simp [hc] at h
+  | some col => simp [hc] at h; exact take_length col idx gk h
+
+/-- **equal content**: the detached path reports, for every column other than id / pid, exactly what the path reported -/
+theorem detach_equal_content (P P' : Path) (D : Py.Dict String (List Int)) (n : Nat) (hP' : P' = ⟨⟨D, P.names⟩, arangeL n, P.names⟩)
+    (hn : n = P.idx.length) (key : String) (gk : List Int) (hD : Py.Dict.get? D key = path_get_ndata P key)
+    (hk : path_get_ndata P key = some gk) : path_get_ndata P' key = some gk := by
+  subst hP'
+  rw [path_get_ndata_eq, hD, hk]
+  have := path_get_ndata_length P key gk hk
+  simp only [Option.bind_some]
+  rw [hn, ← this]; exact take_arange gk
+
+/-- `DictSWC.copy()` / `Tree.copy()`: the same content (as a VALUE; that the storage is fresh is the aliasing assumption of
+`harness/algo_specs/70_views.py`, observed with `np.shares_memory` by the c09.history suite) -/
+theorem swc_copy_eq (T : DictSWC) : swc_copy T = some T := by
+  simp [swc_copy, swc_copy.body, Py.finish]
+
 end RefineViews
